@@ -101,10 +101,112 @@ fn selftest() {
     println!("SELFTEST-OK");
 }
 
+// ------------------------------------------------------------------ matrices
+// Images of the basis states under the real one-step transition / jump().
+// State bit index = word * wordbits + bit. One hex line per basis state.
+use rand_core::RngCore;
+
+macro_rules! lin_type {
+    ($name:expr, $T:ty, $W:ty, $N:expr, $bits:expr, $native:ident, $what:expr, $arg:expr) => {
+        if $arg == $name {
+            let n = $N * $bits;
+            println!("N {}", n);
+            for j in 0..n {
+                let mut s = [0 as $W; $N];
+                s[j / $bits] = (1 as $W) << (j % $bits);
+                let mut g = <$T>::verif_from_state(s);
+                match $what {
+                    "step" => {
+                        let _ = g.$native();
+                    }
+                    "zero" => {}
+                    other => jump_dispatch!(g, $T, other),
+                }
+                let st = g.verif_state();
+                let mut v: Vec<String> = Vec::new();
+                for w in (0..$N).rev() {
+                    v.push(format!("{:0width$x}", st[w], width = $bits / 4));
+                }
+                println!("{}", v.join(""));
+            }
+            return;
+        }
+    };
+}
+
+trait Jumps {
+    fn do_jump(&mut self, _long: bool) {
+        println!("NOJUMP");
+        std::process::exit(3);
+    }
+}
+macro_rules! has_jump {
+    ($($T:ty),*) => { $(impl Jumps for $T { fn do_jump(&mut self, long: bool) { if long { self.long_jump() } else { self.jump() } } })* };
+}
+macro_rules! no_jump {
+    ($($T:ty),*) => { $(impl Jumps for $T {})* };
+}
+has_jump!(rand_xoshiro::Xoroshiro128Plus, rand_xoshiro::Xoroshiro128PlusPlus, rand_xoshiro::Xoroshiro128StarStar,
+          rand_xoshiro::Xoshiro128Plus, rand_xoshiro::Xoshiro128PlusPlus, rand_xoshiro::Xoshiro128StarStar,
+          rand_xoshiro::Xoshiro256Plus, rand_xoshiro::Xoshiro256PlusPlus, rand_xoshiro::Xoshiro256StarStar,
+          rand_xoshiro::Xoshiro512Plus, rand_xoshiro::Xoshiro512PlusPlus, rand_xoshiro::Xoshiro512StarStar);
+no_jump!(rand_xoshiro::Xoroshiro64Star, rand_xoshiro::Xoroshiro64StarStar, rand_xorshift::XorShiftRng);
+macro_rules! jump_dispatch {
+    ($g:ident, $T:ty, $what:expr) => {
+        match $what {
+            "jump" => Jumps::do_jump(&mut $g, false),
+            "long_jump" => Jumps::do_jump(&mut $g, true),
+            _ => {
+                eprintln!("what?");
+                std::process::exit(2)
+            }
+        }
+    };
+}
+
+fn matrix(name: &str, what: &str) {
+    lin_type!("xoroshiro64star", rand_xoshiro::Xoroshiro64Star, u32, 2, 32, next_u32, what, name);
+    lin_type!("xoroshiro64starstar", rand_xoshiro::Xoroshiro64StarStar, u32, 2, 32, next_u32, what, name);
+    lin_type!("xoroshiro128plus", rand_xoshiro::Xoroshiro128Plus, u64, 2, 64, next_u64, what, name);
+    lin_type!("xoroshiro128plusplus", rand_xoshiro::Xoroshiro128PlusPlus, u64, 2, 64, next_u64, what, name);
+    lin_type!("xoroshiro128starstar", rand_xoshiro::Xoroshiro128StarStar, u64, 2, 64, next_u64, what, name);
+    lin_type!("xoshiro128plus", rand_xoshiro::Xoshiro128Plus, u32, 4, 32, next_u32, what, name);
+    lin_type!("xoshiro128plusplus", rand_xoshiro::Xoshiro128PlusPlus, u32, 4, 32, next_u32, what, name);
+    lin_type!("xoshiro128starstar", rand_xoshiro::Xoshiro128StarStar, u32, 4, 32, next_u32, what, name);
+    lin_type!("xoshiro256plus", rand_xoshiro::Xoshiro256Plus, u64, 4, 64, next_u64, what, name);
+    lin_type!("xoshiro256plusplus", rand_xoshiro::Xoshiro256PlusPlus, u64, 4, 64, next_u64, what, name);
+    lin_type!("xoshiro256starstar", rand_xoshiro::Xoshiro256StarStar, u64, 4, 64, next_u64, what, name);
+    lin_type!("xoshiro512plus", rand_xoshiro::Xoshiro512Plus, u64, 8, 64, next_u64, what, name);
+    lin_type!("xoshiro512plusplus", rand_xoshiro::Xoshiro512PlusPlus, u64, 8, 64, next_u64, what, name);
+    lin_type!("xoshiro512starstar", rand_xoshiro::Xoshiro512StarStar, u64, 8, 64, next_u64, what, name);
+    lin_type!("xorshift", rand_xorshift::XorShiftRng, u32, 4, 32, next_u32, what, name);
+    eprintln!("unknown type {}", name);
+    std::process::exit(2);
+}
+
+/// stir(0) and stir(e_i), i = 0..64, from the real code (hook `verif_stir`).
+fn stirbasis() {
+    fn t() -> u64 {
+        1
+    }
+    let mut r = rand_jitter::JitterRng::new_with_timer(t as fn() -> u64);
+    let mut one = |x: u64| {
+        r.verif_set_pool(x);
+        r.verif_stir();
+        r.verif_pool()
+    };
+    println!("{:016x}", one(0));
+    for i in 0..64 {
+        println!("{:016x}", one(1u64 << i));
+    }
+}
+
 fn main() {
     let args: Vec<String> = std::env::args().collect();
     match args.get(1).map(|s| s.as_str()) {
         Some("selftest") => selftest(),
+        Some("matrix") => matrix(&args[2], &args[3]),
+        Some("stirbasis") => stirbasis(),
         _ => {
             eprintln!("usage: rngs_native selftest | ...");
             std::process::exit(2);
